@@ -332,3 +332,94 @@ theorem charpoly_tiled_eq_prod_bloch (bs : List (Bond n G ℂ)) :
       simp [this, one_apply, hg]
 
 end C08
+
+namespace C08
+open Matrix Polynomial
+
+/-! ### the cells of koala's tiling: `ℤ/n_x × ℤ/n_y`, characters = allowed momenta -/
+
+variable {n : Type} [Fintype n] [DecidableEq n]
+
+/-- the plane wave of momentum `k = 2π (m_x/n_x, m_y/n_y)` on the cell group: `g ↦ exp(2πi (m_x g_x/n_x + m_y g_y/n_y))` -/
+noncomputable def momentumChar (nx ny : ℕ) [NeZero nx] [NeZero ny] (m g : ZMod nx × ZMod ny) : ℂ :=
+  ((AddChar.zmod nx m.1 g.1 : Circle) : ℂ) * ((AddChar.zmod ny m.2 g.2 : Circle) : ℂ)
+
+theorem zmod_symm (N : ℕ) [NeZero N] (x y : ZMod N) : AddChar.zmod N x y = AddChar.zmod N y x := by
+  obtain ⟨a, rfl⟩ := ZMod.intCast_surjective x
+  obtain ⟨b, rfl⟩ := ZMod.intCast_surjective y
+  rw [AddChar.zmod_intCast, AddChar.zmod_intCast, mul_comm (a : ℝ)]
+
+/-- orthogonality on `ℤ/N`: summing the character values over all momenta -/
+theorem sum_zmod (N : ℕ) [NeZero N] (y : ZMod N) :
+    ∑ x : ZMod N, ((AddChar.zmod N x y : Circle) : ℂ) = if y = 0 then (N : ℂ) else 0 := by
+  classical
+  have h1 : ∀ x : ZMod N, ((AddChar.zmod N x y : Circle) : ℂ) = AddChar.circleEquivComplex (AddChar.zmod N y) x := by
+    intro x; rw [zmod_symm]; rfl
+  simp_rw [h1]
+  rw [AddChar.sum_eq_ite]
+  have : (AddChar.circleEquivComplex (AddChar.zmod N y) = 0) ↔ y = 0 := by
+    rw [← map_zero (AddChar.circleEquivComplex (α := ZMod N)), AddChar.circleEquivComplex.injective.eq_iff]
+    have h0 : (0 : AddChar (ZMod N) Circle) = AddChar.zmod N 0 := by
+      rw [AddChar.zmod_zero]; rfl
+    rw [h0]
+    exact AddChar.zmod_inj
+  simp only [this, ZMod.card]
+
+theorem momentumChar_add (nx ny : ℕ) [NeZero nx] [NeZero ny] (m a b : ZMod nx × ZMod ny) :
+    momentumChar nx ny m (a + b) = momentumChar nx ny m a * momentumChar nx ny m b := by
+  unfold momentumChar
+  simp only [Prod.fst_add, Prod.snd_add, AddChar.map_add_eq_mul, Circle.coe_mul]
+  ring
+
+/-- **C08 for koala's tiling**: the cells of an `n_x × n_y` tiling form `ℤ/n_x × ℤ/n_y`; the characteristic polynomial of the
+    tiled Hamiltonian is the product over the `n_x·n_y` allowed momenta `k = 2π(m_x/n_x, m_y/n_y)` of the characteristic
+    polynomials of the Bloch Hamiltonians `H(k)` — the union of the Bloch spectra over the allowed momenta is the spectrum of
+    the tiled system, with multiplicities. -/
+theorem charpoly_tiled_eq_prod_momenta (nx ny : ℕ) [NeZero nx] [NeZero ny] (bs : List (Bond n (ZMod nx × ZMod ny) ℂ)) :
+    (tiled bs).charpoly = ∏ m : ZMod nx × ZMod ny, (bloch (momentumChar nx ny m) bs).charpoly := by
+  have hx : (nx : ℂ) ≠ 0 := by exact_mod_cast NeZero.ne nx
+  have hy : (ny : ℂ) ≠ 0 := by exact_mod_cast NeZero.ne ny
+  refine charpoly_tiled_of_invertible (momentumChar nx ny) (momentumChar_add nx ny)
+    (Matrix.of fun m g => ((nx : ℂ) * (ny : ℂ))⁻¹ * momentumChar nx ny m (-g)) ?_ bs
+  ext g g'
+  simp only [mul_apply, of_apply]
+  have h1 : ∀ m, momentumChar nx ny m g * (((nx : ℂ) * (ny : ℂ))⁻¹ * momentumChar nx ny m (-g'))
+      = ((nx : ℂ) * (ny : ℂ))⁻¹ * (((AddChar.zmod nx m.1 (g - g').1 : Circle) : ℂ) * ((AddChar.zmod ny m.2 (g - g').2 : Circle) : ℂ)) := by
+    intro m
+    have := momentumChar_add nx ny m g (-g')
+    rw [← sub_eq_add_neg] at this
+    calc momentumChar nx ny m g * (((nx : ℂ) * (ny : ℂ))⁻¹ * momentumChar nx ny m (-g'))
+        = ((nx : ℂ) * (ny : ℂ))⁻¹ * (momentumChar nx ny m g * momentumChar nx ny m (-g')) := by ring
+      _ = ((nx : ℂ) * (ny : ℂ))⁻¹ * momentumChar nx ny m (g - g') := by rw [this]
+      _ = _ := rfl
+  simp_rw [h1]
+  rw [← Finset.mul_sum, Fintype.sum_prod_type]
+  simp_rw [← Finset.mul_sum]
+  rw [← Finset.sum_mul, sum_zmod, sum_zmod]
+  by_cases hg : g = g'
+  · subst hg
+    simp only [sub_self, Prod.fst_zero, Prod.snd_zero, if_true, one_apply_eq]
+    field_simp
+  · rw [one_apply_ne hg]
+    have : ¬ ((g - g').1 = 0 ∧ (g - g').2 = 0) := by
+      intro h
+      apply hg
+      have : g - g' = 0 := Prod.ext h.1 h.2
+      exact sub_eq_zero.mp this
+    by_cases h1' : (g - g').1 = 0
+    · have h2' : (g - g').2 ≠ 0 := fun h => this ⟨h1', h⟩
+      simp only [h2', if_false, mul_zero, zero_mul]
+    · simp only [h1', if_false, mul_zero, zero_mul]
+
+/-- the characters of the cell group are koala's phases `exp(i k·δ)` at the allowed momenta -/
+theorem momentumChar_eq_chi (nx ny : ℕ) [NeZero nx] [NeZero ny] (mx my a b : ℤ) :
+    momentumChar nx ny ((mx : ZMod nx), (my : ZMod ny)) ((a : ZMod nx), (b : ZMod ny))
+      = chi (2 * Real.pi * mx / nx, 2 * Real.pi * my / ny) (a, b) := by
+  unfold momentumChar chi
+  simp only [AddChar.zmod_intCast, Circle.coe_exp]
+  rw [← Complex.exp_add]
+  congr 1
+  push_cast
+  ring
+
+end C08
